@@ -108,3 +108,46 @@ def as_list(x: Any) -> list:
     if isinstance(x, dict):
         return [x]
     return list(x)
+
+
+# ---------------------------------------------------------------- head markup (C11 / C13)
+
+
+def _tag(name: str, attrs: list, kids=None) -> dict:
+    return {"k": "tag", "name": name, "ws": True, "attrs": [list(a) for a in attrs], "kids": kids or []}
+
+
+def markup(dep: dict, lib_prefix: Optional[str] = "lib", include_version: bool = True, version_str: Optional[str] = None) -> list:
+    """Node recipes a dependency contributes to <head>: meta, link, script elements, then its head payload.
+    Stylesheet items must not carry their own 'rel' (the generators never emit one)."""
+    out: list = []
+    for m in as_list(dep.get("meta")):
+        out.append(_tag("meta", [[k, v] for k, v in m.items()]))
+    for s in as_list(dep.get("stylesheet")):
+        attrs = [[k, (url(dep, v, lib_prefix, include_version, version_str) if k == "href" else v)] for k, v in s.items()]
+        if "rel" not in s:
+            attrs.append(["rel", "stylesheet"])
+        out.append(_tag("link", attrs))
+    for s in as_list(dep.get("script")):
+        attrs = [[k, (url(dep, v, lib_prefix, include_version, version_str) if k == "src" else v)] for k, v in s.items()]
+        out.append(_tag("script", attrs))
+    head = dep.get("head")
+    if head is None:
+        pass
+    elif isinstance(head, str):
+        out.append({"k": "html", "s": head})
+    elif isinstance(head, dict) and "k" not in head and "html" in head:
+        out.append({"k": "html", "s": head["html"]})
+    elif isinstance(head, list):
+        out.extend(head)
+    else:
+        out.append(head)
+    return out
+
+
+def listing(deps: list, version_of=lambda d: d["version"]) -> str:
+    return ";".join(d["name"] + "[" + version_of(d) + "]" for d in deps)
+
+
+def listing_tag(deps: list, version_of=lambda d: d["version"]) -> dict:
+    return _tag("script", [["type", "application/html-dependencies"]], [{"k": "text", "s": listing(deps, version_of)}])
